@@ -265,9 +265,7 @@ func (f changeFinder) walkSlice(from, to *value) bool {
 		return equal
 	}
 
-	es := diff.Difference(from.Len(), to.Len(), func(i, j int) diff.Result {
-		return compareNodes(from.Children[i], to.Children[j])
-	})
+	es := alignSlices(from, to)
 
 	regions := make([]Region, from.Len())
 	for i, n := range from.Children {
@@ -335,6 +333,45 @@ func (f changeFinder) walkSlice(from, to *value) bool {
 	}
 
 	return equal
+}
+
+// alignSlices computes the edit script that turns the elements of from into
+// those of to.
+//
+// diff.Difference is a heuristic that pairs elements that are merely similar
+// as readily as elements that are identical. When elements are removed from
+// the front of a list (import declarations merged into one), it can pair a
+// removed element with an untouched one that follows and report the
+// untouched one as deleted. Elements that are exactly equal are therefore
+// paired first, left to right; the heuristic only decides about what lies
+// between two such pairs.
+func alignSlices(from, to *value) diff.EditScript {
+	var es diff.EditScript
+	gap := func(fi, fj, ti, tj int) {
+		es = append(es, diff.Difference(fj-fi, tj-ti, func(i, j int) diff.Result {
+			return compareNodes(from.Children[fi+i], to.Children[ti+j])
+		})...)
+	}
+
+	// An identical element is looked for only a bounded distance ahead, so
+	// that a list in which every element was modified costs a linear number
+	// of comparisons.
+	const lookahead = 64
+
+	fi, ti := 0, 0 // start of the current gap
+	for i, j := 0, 0; i < from.Len(); i++ {
+		for k := j; k < to.Len() && k < j+lookahead; k++ {
+			if compareNodes(from.Children[i], to.Children[k]).Equal() {
+				gap(fi, i, ti, k)
+				es = append(es, diff.Identity)
+				fi, ti = i+1, k+1
+				j = k + 1
+				break
+			}
+		}
+	}
+	gap(fi, from.Len(), ti, to.Len())
+	return es
 }
 
 type nodeComparer struct{ diff.Result }
